@@ -5,7 +5,7 @@ CONSTANTS
   MaxUnits = 1
   MaxRich = 1
   MaxVar = 4
-  UnitKinds <- SubOnly
+  UnitKinds <- SweepUnits
   ConKinds <- OneCons
   SpecKinds <- Empty
   SimpleV <- SimpleOne
